@@ -220,21 +220,37 @@ pub fn run_path(scn: &Value) -> Value {
     };
     let mut problems = vec![];
     let mut n = 0;
-    for fam in fams {
+    // subjects: every fixture key pair of the type, and - for RSA - a public key of the largest supported size
+    // (8192 bits; only its public half is a fixture, the library cannot hold private keys of that size)
+    let mut subjects: Vec<(&str, usize, Option<&'static [u8]>)> = vec![];
+    for fam in &fams {
         for idx in 0..keys::family_size(fam) {
+            subjects.push((fam, idx, Some(keys::raw_der(fam, idx))));
+        }
+    }
+    let starts_private = matches!(scn["path"][0].as_str(), Some("private") | Some("generated"));
+    if typ == "rsa" && !starts_private {
+        subjects.push(("rsa2048-256", 100, None));
+    }
+    for (fam, idx, der_opt) in subjects {
+        {
             n += 1;
-            let der = keys::raw_der(fam, idx);
-            let sk = keys::load(fam, idx);
+            let der: &[u8] = der_opt.unwrap_or(&[]);
             let mut generated: Option<Vec<u8>> = None;
             // the public key material, derived from the private key WITHOUT the library (ring only)
-            let mut material = match independent_public(typ, der) {
-                Some(m) => m,
-                None => {
-                    problems.push(json!({"family": fam, "idx": idx, "harness": "cannot derive the public key independently"}));
-                    continue;
-                }
+            let mut material = match der_opt {
+                None => keys::RSA8192_PKCS1.to_vec(),
+                Some(d) => match independent_public(typ, d) {
+                    Some(m) => m,
+                    None => {
+                        problems.push(json!({"family": fam, "idx": idx, "harness": "cannot derive the public key independently"}));
+                        continue;
+                    }
+                },
             };
-            let _ = &sk;
+            if der_opt.is_none() && standard_spki(typ, &material) != keys::RSA8192_SPKI {
+                problems.push(json!({"harness": "SPKI template disagrees with the openssl-made SPKI of the 8192-bit key"}));
+            }
             let mut std_spki = standard_spki(typ, &material);
             // a path that starts from a freshly generated key pair works on that key's material
             if scn["path"][0] == "generated" {
